@@ -99,18 +99,27 @@ pub fn run(ctx: &Ctx) -> Report {
     rep.absorb(acc);
     // 2. atoms at every length-prefix boundary, alone and as children
     let mut sizes: Vec<usize> = vec![0, 1, 2, 0x3e, 0x3f, 0x40, 0x41, 0x1ffe, 0x1fff, 0x2000, 0x2001, 0xffffe, 0xfffff, 0x100000, 0x100001];
+    sizes.extend([1_999_990usize, 1_999_995, 1_999_996]);
+    // the 4-byte / 5-byte prefix boundary (128 MiB) and the next power of two
+    sizes.extend([0x7ff_ffffusize, 0x800_0000, 0x800_0001]);
     if !ctx.quick() {
-        sizes.extend([1_999_990usize, 1_999_995, 1_999_996]);
+        sizes.extend([0xfff_ffffusize, 0x1000_0000]);
     }
     let mut acc = Acc::default();
     for &sz in &sizes {
         for first in [0x00u8, 0x01, 0x7f, 0x80, 0xff] {
+            if sz > 4_000_000 && first != 0x80 {
+                continue;
+            }
             let mut b = vec![0x33u8; sz];
             if sz > 0 {
                 b[0] = first;
             }
             let at = atom(&b);
             for shape in 0..3 {
+                if sz > 4_000_000 && shape != 1 {
+                    continue;
+                }
                 let t: T = match shape {
                     0 => at.clone(),
                     1 => cons(at.clone(), atom(&[])),
